@@ -210,10 +210,19 @@ theorem P_variants_physically_agree (X X' : GFn) (Y Y' : RFn) (hb : kw.bcoh ≠ 
   · rw [e6, e6', h3, fOut_g_unc kw junk X hb hrho r _ _ hgl.symm hdgl.symm, fOut_g_unc kw junk X' hb hrho r _ _ hgl.symm hdgl.symm,
       gslope_list kw .g X X' hb hrho r _ hrpos]
 
-/-- the hypotheses are satisfiable and the statement is not about empty lists: a two-point example in which variant (G, S) is related to (G_K, DCS) -/
-example : (∀ a ∈ ([1, 2] : List ℝ), 0 < a) ∧ ([1, 2] : List ℝ).length = ([3, 4] : List ℝ).length := by
-  constructor
-  · intro a ha; simp at ha; rcases ha with rfl | rfl <;> norm_num
-  · rfl
+/-- the hypotheses are satisfiable (a two-point example relating variant (G, S) to variant (G_K, DCS)): the theorem instantiates -/
+example (junk : Junk ℝ) :
+    let kw : Kw ℝ := { rho := 1, bcoh := 2, btot := 3 }
+    C08.removed (GenTable.filt .GK .DCS kw junk [1, 2] (List.zipWith (Spec.gconv kw .G .GK) [1, 2] [3, 4]) [1, 2]
+        (List.zipWith (Spec.rconv kw .S .DCS) [1, 2] [5, 6]) 1
+        (some (List.zipWith (fun r e => Spec.gslope kw .G .GK r * e) [1, 2] [7, 8]))
+        (some (List.zipWith (fun q e => Spec.rslope kw .S .DCS q * e) [1, 2] [9, 10])))
+      = List.zipWith (Spec.rconv kw .S .DCS) [1, 2]
+          (C08.removed (GenTable.filt .G .S kw junk [1, 2] [3, 4] [1, 2] [5, 6] 1 (some [7, 8]) (some [9, 10]))) := by
+  intro kw
+  have hpos : ∀ a ∈ ([1, 2] : List ℝ), 0 < a := by
+    intro a ha; simp at ha; rcases ha with rfl | rfl <;> norm_num
+  exact (P_variants_physically_agree kw junk .G .GK .S .DCS (by norm_num [kw]) (by norm_num [kw]) [1, 2] [3, 4] [7, 8] [1, 2] [5, 6] [9, 10] 1
+    rfl rfl rfl rfl hpos hpos).2.2.2.1
 
 end C09
